@@ -127,6 +127,7 @@ type renderSetup struct {
 	root     string // temp dir holding the case's files, or ""
 	repeat   int    // how many times the parsed template is rendered (results must agree)
 	snaps    *snapRecorder
+	setupErr liquid.SourceError // registering a cached source failed
 }
 
 // snapRecorder collects what the harness's own tag {% lqh_snap name label %} sees: the Go value bound to the name at
@@ -361,10 +362,14 @@ func prepareRender(c J) (*renderSetup, error) {
 			return nil, fmt.Errorf("cache entries must parse")
 		}
 		cbuf := []byte(content)
-		_, err = eng.ParseTemplateAndCache(cbuf, full, 1)
+		_, serr := eng.ParseTemplateAndCache(cbuf, full, 1)
 		scribble(cbuf)
-		if err != nil {
-			return nil, fmt.Errorf("cache entry does not parse: %v", err)
+		if serr != nil {
+			// (a registered source that the specification takes for well-formed does not parse: that is a result,
+			// not a case that cannot be run)
+			if rs.setupErr == nil {
+				rs.setupErr = serr
+			}
 		}
 	}
 	// hoisted literals become bindings
@@ -549,6 +554,9 @@ func runRender(c J) J {
 	obs["src"] = bytesJSON(rs.src)
 	obs["text"] = rs.src
 	res := doRender(rs, jstr(c, "entry"))
+	if rs.setupErr != nil {
+		res = errResult("parse", rs.setupErr, rs.root)
+	}
 	if !jbool(c, "weird") && !jbool(c, "testenv") {
 		// (bindings built from the value universe of the specification: Go structs with pointer fields, which the
 		// fuzzing environments hold, print their fields the way Go does)
